@@ -260,6 +260,9 @@ impl Engine for SimpleEng {
     fn semantic_prop() -> &'static str {
         "C11"
     }
+    fn gen_op_props() -> Vec<&'static str> {
+        vec!["C11"]
+    }
     fn is_ctx_path(_path: &str) -> bool {
         false
     }
